@@ -347,7 +347,8 @@ def build_e2e_driver(chk):
 
 
 def composed_model_tie(chk, cases):
-    """Whole-file correspondence of the COMPOSED model (coq/e2e: the writers area's FlacSampleWriter front-end and
+    """Whole-file correspondence of the COMPOSED model (coq/e2e: the writers area's three front-ends — FlacSampleWriter,
+    FlacByteWriter in both byte orders, FlacChannelWriter, each run on the same input — and
     Encoder — constructor, metadata region, bookkeeping, finalize with its seek-table and padding cases — with the codec
     area's block encoder plugged in, MD5 = OCaml Digest, LPC analysis = oracle read from the file): for every file the
     real encoder produced, the model run on the same options and PCM must produce THE SAME FILE, byte for byte.  For
@@ -389,8 +390,12 @@ def composed_model_tie(chk, cases):
         why = None
         if r.get("end") != "ok":
             why = "the model run ends with %s where the implementation produced a file" % r.get("end")
+        elif r["match"] and not (r.get("match_bytes_le", True) and r.get("match_bytes_be", True) and r.get("match_channels", True)):
+            why = "the FlacSampleWriter model reproduces the file, but not every other front-end model does (byte writer LE: %s, BE: %s, channel writer: %s)" % (
+                r.get("match_bytes_le"), r.get("match_bytes_be"), r.get("match_channels"))
         elif r["match"]:
             out["composed_model_files_byte_exact"] += 1
+            out["composed_model_front_end_runs"] = out.get("composed_model_front_end_runs", 0) + 4
             if not r["complete_oracle"]:
                 out["composed_model_files_incomplete_oracle"] += 1
         elif not r["complete_oracle"]:
